@@ -22,9 +22,13 @@ def _newline_predicates(ctx):
     for f in ctx.prog.funcs.values():
         if f.mod.rel != DIFF or f.cls is not None or f.outer is not None:
             continue
-        consts = {n.value for n in walk_own(f.node) if isinstance(n, ast.Constant) and isinstance(n.value, str)}
-        if 'newline' in consts and any(isinstance(n, ast.Return) for n in walk_own(f.node)) and len(f.params()) >= 1 \
-                and ('\n' in consts or '\r' in consts or any(c.endswith('\n') for c in consts)):
+        compares = [n for n in walk_own(f.node) if isinstance(n, ast.Compare) and any(
+            isinstance(c, ast.Constant) and c.value == 'newline' for c in [n.left] + n.comparators)]
+        rets = [n for n in walk_own(f.node) if isinstance(n, ast.Return) and n.value is not None]
+        # it answers a question about the leaf it is given: returns a comparison / boolean expression, takes the leaf first
+        if compares and rets and len(f.params()) >= 1 and all(
+                isinstance(r.value, (ast.Compare, ast.BoolOp, ast.UnaryOp, ast.Constant, ast.Call, ast.Name)) for r in rets) \
+                and any(any(c is sub for sub in ast.walk(r.value)) for r in rets for c in compares):
             out.add(f.name)
     return out
 
@@ -40,9 +44,12 @@ def _copier(ctx):
         for n in walk_own(f.node):
             if isinstance(n, ast.Return) and isinstance(n.value, ast.Tuple) and n.value.elts and isinstance(n.value.elts[0], ast.Name):
                 lists.add(n.value.elts[0].id)
+        if not lists:
+            continue
+        v = ctx.view(f, keep=(f.name,))          # removals / the recursion may sit in private helpers
         for L in lists:
-            pops = [n for n in walk_own(f.node) if _is_removal(n, L)]
-            rec = any(isinstance(n, ast.Call) and isinstance(n.func, ast.Attribute) and n.func.attr == f.name for n in walk_own(f.node))
+            pops = [n for n in walk_own(v.node) if _is_removal(n, L)]
+            rec = any(isinstance(n, ast.Call) and isinstance(n.func, ast.Attribute) and n.func.attr == f.name for n in walk_own(v.node))
             if pops and rec:
                 found.append((f, L))
     return found
@@ -96,6 +103,7 @@ def diff_2(ctx, rep):
         raise AnalysisError('anchor vanished: the ends-with-newline predicate of parso/python/diff.py')
     n_sites = 0
     for f, L in cops:
+        f = ctx.view(f, keep=(f.name,))        # removals moved into a helper that gets the list are read in place
         cfg = ctx.cfg(f)
         flow = FactFlow(cfg)
         flow.fact_vars.add(L)
